@@ -144,8 +144,8 @@ func properties() map[string]*PropertySpec {
 			}
 			return out
 		},
-		Labels:    c15Labels,
-		Bounds:    ps["C03"].Bounds, Outside: ps["C03"].Outside, Stubs: ps["C03"].Stubs,
+		Labels: c15Labels,
+		Bounds: ps["C03"].Bounds, Outside: ps["C03"].Outside, Stubs: ps["C03"].Stubs,
 	}
 	ps["C09"] = &PropertySpec{ID: "C09", Level: "model_checking", Panics: true,
 		Instances: func(tier string) []*Instance {
@@ -208,6 +208,11 @@ func properties() map[string]*PropertySpec {
 			}
 			for _, f := range []int64{1, 2, 3, 5} {
 				out = append(out, instLS("H_C10_spelled", allLangs(), ns, f)...)
+			}
+			if tier != "thorough" {
+				// the scripts whose NFKD form is much longer than the typed form, at the long sizes
+				out = append(out, instLS("H_C10_spelled", []int64{5, 6}, []int64{18, 24}, 1)...)
+				out = append(out, instLS("H_C10_spelled", []int64{5, 6}, []int64{24}, 3)...)
 			}
 			return out
 		},
@@ -925,34 +930,34 @@ func writeEvidence(c *CheckRun, wall float64) {
 		src = c.P.SrcHashList()
 	}
 	cov := map[string]interface{}{
-		"states":                        max1(paths),
-		"transitions":                   max1(steps),
-		"traces_validated_against_impl": c.Validated,
-		"samples":                       samples,
-		"obligations":                   obl + c.StructObl + panicOblIf(c, panicObl),
-		"discharged":                    dis + c.StructObl - len(c.StructFail) + panicOblIf(c, panicObl-panicFound(c)),
+		"states":                         max1(paths),
+		"transitions":                    max1(steps),
+		"traces_validated_against_impl":  c.Validated,
+		"samples":                        samples,
+		"obligations":                    obl + c.StructObl + panicOblIf(c, panicObl),
+		"discharged":                     dis + c.StructObl - len(c.StructFail) + panicOblIf(c, panicObl-panicFound(c)),
 		"discharged_by_constant_folding": triv,
-		"panic_obligations":             panicObl,
-		"inconclusive_obligations":      inc,
-		"assertion_labels":              labels,
-		"instances":                     len(c.Insts),
-		"instances_by_harness":          instKinds,
-		"forks":                         forks,
-		"cegar_refinement_rounds":       cegar,
-		"functions_encoded":             fl,
-		"source_files_sha256_prefix":    src,
-		"bounds":                        c.Spec.Bounds,
-		"outside_bounds":                c.Spec.Outside,
-		"solvers":                       solv,
-		"solver_time_s":                 solverS,
-		"decided_by":                    decided,
-		"inconclusive":                  c.Inconcl,
-		"known_findings_matched":        dedupe(c.Known),
-		"structural_failures":           c.StructFail,
-		"broken":                        c.Broken,
-		"explanation":                   evidenceExplanation(c),
-		"exhaustive":                    false,
-		"randomness_source_variable":    readerName,
+		"panic_obligations":              panicObl,
+		"inconclusive_obligations":       inc,
+		"assertion_labels":               labels,
+		"instances":                      len(c.Insts),
+		"instances_by_harness":           instKinds,
+		"forks":                          forks,
+		"cegar_refinement_rounds":        cegar,
+		"functions_encoded":              fl,
+		"source_files_sha256_prefix":     src,
+		"bounds":                         c.Spec.Bounds,
+		"outside_bounds":                 c.Spec.Outside,
+		"solvers":                        solv,
+		"solver_time_s":                  solverS,
+		"decided_by":                     decided,
+		"inconclusive":                   c.Inconcl,
+		"known_findings_matched":         dedupe(c.Known),
+		"structural_failures":            c.StructFail,
+		"broken":                         c.Broken,
+		"explanation":                    evidenceExplanation(c),
+		"exhaustive":                     false,
+		"randomness_source_variable":     readerName,
 	}
 	for k, v := range c.Extra {
 		cov[k] = v
@@ -1144,8 +1149,6 @@ func replayCmd(path string) int {
 	return 0
 }
 
-
-
 // ---------------------------------------------------------------- structural post-checks
 
 func (c *CheckRun) structural(ok bool, what string) {
@@ -1169,7 +1172,6 @@ func c07Post(c *CheckRun) {
 func c08Post(c *CheckRun) {}
 
 func c13Post(c *CheckRun) {}
-
 
 var opaquePool = []string{strings.Repeat("a", 128), strings.Repeat("b", 127) + " " + strings.Repeat("c", 129), strings.Repeat("x", 253) + "e\u0302\u0323 tail", strings.Repeat("y", 509) + "o\u0302\u0323\u0301z",
 	"x\u00a0y", "\u00b5\u00b2\u00bd", "\u00b4secret", " lead and trail ", "\ufdfa", "\u3316\u3316\u3316", "\u2057\u2057 x", "pw\ufdfa\u0301", "ｆｕｌｌ　ｗｉｄｔｈ", "caf\u00e9 \u212b", "e\u0301\u0323 a\u0323\u0301", "\u00a0x\u2003y", "\u3392\ufb01\u00bd", "\u0301\u0323lead", "\ud55c\uae00 \u304c\u30ac", "plain ascii", strings.Repeat("\u00e9\u3000", 80)}
@@ -1234,7 +1236,6 @@ func isTokenName(k string) bool {
 	}
 	return true
 }
-
 
 func (i *Instance) panicFindings() int {
 	n := 0
